@@ -1,6 +1,6 @@
 HOOK_COMMITS = []
 _PENDING = "check not built yet in this round (planned, see DESIGN.md section 9); not a statement that the technique cannot apply"
-NOT_APPLICABLE = {p: _PENDING for p in ["C01","C02","C03","C04","C05","C06","C07","C08","C09","C10","C11","C12","C16","C18","C19"]}
+NOT_APPLICABLE = {p: _PENDING for p in ["C02","C03","C04","C05","C06","C07","C08","C09","C10","C11","C12","C16","C18","C19"]}
 TEXT = {
  "C17": {
   "text": "Lean mirror of integer.h / dyadic_rational.h / rational.h; theorems for every modulus m>=2 and every operand state that each "
@@ -53,5 +53,16 @@ TEXT = {
   "design_ref": "5.20",
   "note": "proof covers the reference semantics and basic mirror lemmas; the refinement mirror -> reference is checked per history (20k histories per quick run with forced collisions, wrap-around, growth), not proved; elements abstracted to (identity, reported hash)",
   "technique": "Lean 4 proved reference semantics + slot-exact mirror model + history-based differential correspondence",
+ },
+ "C01": {
+  "text": "Reference model of Z[x1..xn] / Z_m[x1..xn] (term lists, normalise = sort + combine + drop zeros + symmetric residues) proved "
+          "in Lean to be the ring MvPolynomial N R for R = Z and R = ZMod m, every m >= 2: add, sub, neg, mul, scalar product, power, "
+          "fused multiply-add/sub, shift by x^n, constants and integer evaluation denote the ring operations for ALL term lists. Every "
+          "result of the C library (multivariate and univariate types, all rings incl. composite and multi-limb moduli, all destination/"
+          "alias patterns, in-place growth after cancellation) is compared with this reference on every run, and the C output itself is "
+          "checked to be canonical (no zero/duplicate terms, residues in range, non-zero leading coefficient).",
+  "design_ref": "5.1",
+  "note": "reference (not mirror) model: the recursive coefficient_t layout is not modelled, only its observable traversal; uniqueness of the canonical form (den injective on canonical lists), derivative and rational evaluation are executable and tied by correspondence but not yet proved",
+  "technique": "Lean 4 proved reference model (MvPolynomial denotation) + differential correspondence harness",
  },
 }
